@@ -267,6 +267,9 @@ func GenBase(r *Rand, p *Profile) *h.Scenario {
 		b.FillOnAbort = r.Bool(0.2)
 		if r.Bool(0.15) && !narrow {
 			b.Width = r.Range(30, wide) // BarWidth overrides the container's width for this bar
+			if r.Bool(0.25) {
+				b.Width = r.Range(1, 4) // narrower than an on-complete / on-abort filler message (which takes the room the row has, not the bar's width)
+			}
 		}
 		b.Filler = r.Weighted(4, 1, 1, 3)
 		if p.NoSpinner && b.Filler == h.FillSpinner {
